@@ -85,9 +85,10 @@ CHECKS.update({
                  "tables derive from the face lookup (T2), adjacency symmetric with consistent rotations incl. the pentagon wedge rule (T3), digit rotation = coordinate rotation (T10), "
                  "sibling shortcut of areNeighborCells (T11), pentagon markers (T7), cwOffsetPent (T19); k < 0 => E_DOMAIN on all seven entry points; maxGridDiskSize = 3k(k+1)+1 without "
                  "overflow; the index rotations the neighbour step applies (_h3Rotate60ccw/cw, _h3RotatePent60ccw/cw, _h3LeadingNonZeroDigit) are exact for all index values; the "
-                 "hash probe of the safe disk wraps with the modulus it starts with; a failing callee makes every disk function fail (one justified exception: E_PENTAGON = no neighbour).",
+                 "hash probe of the safe disk wraps with the modulus it starts with; a failing callee makes every disk function fail (one justified exception: E_PENTAGON = no neighbour); "
+                 "the in-place ring walks test every cell for being a pentagon before stepping off it (typestate on the success-path skeleton, k = 1..5).",
                  "the pentagon special cases in h3NeighborRotations, equality with BFS, ring order (path- and data-dependent).",
-                 "R-TAB T1,T2,T3,T7,T10,T11,T19 " + TAB + "; " + BP + "; R-GUARD " + G + "; R-CFORM " + CF + "; R-SIB hash-probe modulus; R-ERRFLOW error-flow exploration"),
+                 "R-TAB T1,T2,T3,T7,T10,T11,T19 " + TAB + "; " + BP + "; R-GUARD " + G + "; R-CFORM " + CF + "; R-SIB hash-probe modulus; R-ERRFLOW error-flow exploration; R-WALK walk typestate (bounded k)"),
  "C06": _partial("C06", "uncompactCells writes outSet[i] only where i < numOut and returns E_MEMORY_BOUNDS when the capacity is reached; a target resolution coarser than a visited "
                  "cell (or above 15) => E_RES_MISMATCH, never success; uncompactCells expands each input cell into exactly its children in index order (iterator induction as in C04 + "
                  "R-DRAIN on its loop); cellToParent (used to find the parents compactCells counts) is bit-exact; both hash probes of compactCells wrap with the modulus they start with.",
@@ -99,8 +100,10 @@ CHECKS.update({
                  "vertex counts, ccw order, coincidence of shared edges, areas summing to 4*pi (numeric geometry).", "R-TAB T5,T9,T13 " + TAB + "; R-CFORM " + CF + "; R-FOLD accumulation-shape rule"),
  "C09": _partial("C09", "E_RES_MISMATCH for cells of different resolution on gridDistance, gridPathCellsSize, gridPathCells, cellToLocalIj; mode != 0 => E_OPTION_INVALID; the lattice "
                  "tables that define 'neighbour' and that cellToLocalIjk unfolds with (T1,T2,T3,T10); PENTAGON_ROTATIONS_REVERSE undoes PENTAGON_ROTATIONS (T14); the index rotations "
-                 "both directions apply are exact for all index values (R-BITPROV); overflow-checked parents cannot wrap (R-OVF); failing callees make the callers fail (R-ERRFLOW).",
-                 "distance = graph distance, inverse pair beyond T14, the _POLAR/_NONPOLAR tables.", "R-GUARD " + G + "; R-TAB T1,T2,T3,T10,T14 " + TAB + "; " + BP + "; R-OVF; R-ERRFLOW"),
+                 "both directions apply are exact for all index values (R-BITPROV); overflow-checked parents cannot wrap (R-OVF); failing callees make the callers fail (R-ERRFLOW); "
+                 "the _NONPOLAR/_POLAR reverse rotation tables and the forward unfolding are inverse in both directions wherever both succeed (T20), likewise T14 for a pentagon origin; "
+                 "aperture-7 parent/child kernels (T21) and the ij/cube conversions (T22) are inverse linear maps.",
+                 "distance = graph distance, inverse pair beyond T14, the _POLAR/_NONPOLAR tables.", "R-GUARD " + G + "; R-TAB T1,T2,T3,T10,T14,T20,T21,T22 " + TAB + "; " + BP + "; R-OVF; R-ERRFLOW"),
  "C10": _partial("C10", "isValidDirectedEdge conjuncts (direction 1..6, mode 2 via getDirectedEdgeOrigin, not K on a pentagon, valid origin) and acceptance when all hold; "
                  "E_NOT_NEIGHBORS and E_DIR_EDGE_INVALID clauses; direction<->vertex-number maps (T8), pentagon direction/face table (T12); edgeLengthKm/M unit factors; for all 2^64 "
                  "values isValidDirectedEdge accepts EXACTLY mode 2, direction 1..6 (not 1 on a pentagon) over a valid origin, and getDirectedEdgeOrigin stores exactly the edge with mode 1 and "
@@ -112,7 +115,7 @@ CHECKS.update({
  "C12": _partial("C12", "every row of the guard table (each documented rejection of an out-of-domain scalar: never success, documented code reachable, no write where stated); "
                  "every function can only return codes 0..15 (value-set fixpoint over returns, parameters, error fields); no H3Error is dropped (R-ERRDISC) and for every used call site and "
                  "every non-zero code of the callee the caller cannot reach `return E_SUCCESS` (R-ERRFLOW, one justified exception); overflow-checked helpers cannot wrap (R-OVF); no "
-                 "argument-derived table subscript beyond the extent (R-IDX); all bounded-write instances; every hash probe wraps with its starting modulus; error enum witnesses; maxGridDiskSize closed form.",
+                 "argument-derived table subscript beyond the extent (R-IDX: index bit fields and integer parameters); every R-BITPROV instance; all bounded-write instances; every hash probe wraps with its starting modulus; error enum witnesses; maxGridDiskSize closed form.",
                  "absence of undefined behaviour in general (signed overflow outside the checked helpers, float-to-int conversions, recursion depth), NEVER()/ALWAYS() reachability.",
                  "R-GUARD/R-CONJ " + G + "; R-RET error-code value-set propagation; R-ERRDISC/R-ERRFLOW error-flow rules; R-OVF; R-IDX; R-BW; R-SIB; R-WIT " + WIT),
  "C13": _partial("C13", "the three rejection clauses of childPosToCell (E_RES_DOMAIN, E_RES_MISMATCH, E_DOMAIN via validateChildPos incl. position == size) and of cellToChildPos; "
@@ -124,7 +127,8 @@ CHECKS.update({
                  "inputs that are not valid cells (undocumented behaviour); that the rank formula counts the documented child set is arithmetic (counting argument in DESIGN.md 3 C13), not re-derived.",
                  "R-GUARD " + G + "; R-CFORM " + CF + "; " + BP + " extended by a digit-contribution (lane-sum) domain with if-conversion; R-ERRFLOW"),
  "C14": _partial("C14", "announced size = gridDistance + 1 (errors passed on, nothing stored); gridPathCells writes out[n] only for n <= distance of the same callee's result, also on "
-                 "the failing exits; resolution-mismatch rejection.", "contiguity / shortest path (floating interpolation).", "R-CFORM " + CF + "; R-BW " + BW + "; R-GUARD " + G),
+                 "the failing exits; resolution-mismatch rejection; a failing localIjkToCell makes gridPathCells fail (R-ERRFLOW); the rotation tables / kernels / cube conversion the "
+                 "interpolation relies on (T14, T20, T21, T22).", "contiguity / shortest path (floating interpolation).", "R-CFORM " + CF + "; R-BW " + BW + "; R-GUARD " + G + "; R-ERRFLOW; R-TAB T14,T20,T21,T22 " + TAB),
  "C15": _partial("C15", "out[i] only where i < size, E_MEMORY_BOUNDS when the capacity is reached; flags outside {0,1,2,3} => E_OPTION_INVALID on both experimental entry points; "
                  "containment-mode enum/mask witnesses.",
                  "what each containment mode means geometrically, nestedness, the size estimate being an upper bound.", "R-BW " + BW + "; R-GUARD " + G + "; R-WIT " + WIT),
